@@ -1563,6 +1563,11 @@ fn main() {
         ses.finish(&mut sut);
     }
     let mut rng = ses.rng.fork();
+    // the literal per-ADDRESS reading of the limit clause is violated by the code when a list names one address under two
+    // spellings. Once that is listed in known_findings.json (or with C16_STRICT=1) the dedicated two-spellings case below
+    // runs with `strict=1`, so every run reports it (one KNOWN-FINDING line). Everything else keeps `strict=0`.
+    let strict_listed = std::env::var("C16_STRICT").map(|v| v == "1").unwrap_or(false)
+        || load_known("C16").iter().any(|k| k.status == "finding" && k.key.ends_with("limit-exceeded-per-address-listed-under-two-spellings"));
 
     // ------------------------------------------------------------------ 0. what the code is, found at run time
     // amount bounds (private constants): bisection on the real instantiate
@@ -1615,6 +1620,7 @@ fn main() {
         "time:wl-end:claim-ok",
         "admins-claim:ok",
         "case-variants:per-address-over-limit",
+        "case-variants:literal-clause-counterexample-reproduced",
         "big-list:first:ok",
         "big-list:last:ok",
         "scenario:short-and-full",
@@ -2033,6 +2039,33 @@ fn main() {
                     "how_to_replay": "./check C16 --replay corpus/C16/case-variant-double-claim.json"});
                 std::fs::write(p, serde_json::to_string_pretty(&v).unwrap()).ok();
             }
+        }
+        ses.end_case();
+    }
+
+    // ------------------------------------------------------------------ 11b. the listed counter-example to the literal per-address clause, in a case of
+    // its own (the first finding of a case mutes the later monitors of that case): limit 1, one key listed as 0xab… and
+    // 0xAB…, one claim per spelling. With `strict=1` the second claim raises `claim/limit-exceeded-per-address-listed-under-two-spellings`.
+    {
+        let k = new_key(&mut rng, 2);
+        let (lower, upper) = (k.eth.clone(), format!("0x{}", k.eth[2..].to_uppercase()));
+        ses.begin_case(&mut sut, &header("two-spellings-literal-clause", 1, true, 40, 40).replace("strict=0", if strict_listed { "strict=1" } else { "strict=0" }));
+        ses.step(&mut sut, &format!("fund to={} amt={}", hxs(INST_SENDER), FEE + cx.amt * 3));
+        ses.step(
+            &mut sut,
+            &format!("inst sender={} funds=0:{} amount={} limit=1 tpl={} addrs={}", hxs(INST_SENDER), FEE + cx.amt * 3, cx.amt, hxs("{wallet}"), hx_list(&[lower.clone(), upper.clone()])),
+        );
+        if let Some(me) = sut.w.as_ref().and_then(|w| w.airdrop.clone()) {
+            ses.step(&mut sut, &format!("cwl_admins sender={} admins={}", hxs(CREATOR), hx_list(&[CREATOR.to_string(), me])));
+        }
+        let sg = signed(&k, "{wallet}", "acct00001");
+        let o1 = ses.step(&mut sut, &claim_line("acct00001", &lower, &sg));
+        let o2 = ses.step(&mut sut, &claim_line("acct00001", &upper, &sg));
+        if o1.starts_with("ok") && o2.starts_with("ok") {
+            ses.mark(format!("case-variants:literal-clause-counterexample-reproduced:strict{}", strict_listed as u8));
+        } else {
+            ses.mark(format!("case-variants:literal-clause-counterexample-gone:{}:{}", first_word(&o1), first_word(&o2)));
+            ses.note("the two-spellings double claim no longer reproduces: the known finding of C16 may have been repaired (remove it from known_findings.json)");
         }
         ses.end_case();
     }
